@@ -7,11 +7,18 @@ ROOT = os.path.dirname(os.path.dirname(os.path.abspath(__file__)))
 wt, var, sid, prop, what, needs, demo = sys.argv[1:8]
 out = subprocess.run(["bash", os.path.join(ROOT, "tools", "seed_confirm.sh"), wt, var, "bash", "-c", demo],
                      capture_output=True, text=True).stdout
-lines = [l for l in out.splitlines() if l.startswith("test result") or l.startswith("SUMMARY") or "PATCH DOES NOT" in l]
+lines = [l for l in out.splitlines() if l.startswith("test result") or l.startswith("SUMMARY") or l.startswith("== ") or "PATCH DOES NOT" in l]
 print(out[-1500:])
 summ = [l for l in lines if l.startswith("SUMMARY")]
-passed = sum(int(l.split()[3]) for l in lines if l.startswith("test result"))
-failed = sum(int(l.split()[5]) for l in lines if l.startswith("test result"))
+# only the suite run counts (the demonstration may itself be a cargo test)
+suite, inside = [], False
+for l in lines:
+    if l.startswith("== "):
+        inside = l.startswith("== suite WITH")
+    elif inside and l.startswith("test result"):
+        suite.append(l)
+passed = sum(int(l.split()[3]) for l in suite)
+failed = sum(int(l.split()[5]) for l in suite)
 ok = bool(summ) and summ[0].split()[1] == "without=0" and summ[0].split()[2] != "with=0" and failed == 0 and passed >= 243
 print(f"passed={passed} failed={failed} ok={ok}")
 if not ok and "--force" not in sys.argv:
